@@ -84,8 +84,8 @@ def outsideFile (c : String) : String :=
 def outsidePyPath (c : String) : String := joinWith "." (dropLast' (splitDot c))
 /-- the package header of a placeholder stub -/
 def outsideHeader (safe : Bool) (c : String) : String :=
-  (if outsidePyPath c != convertName (outsidePyPath c) safe then "@PythonModule(\"" ++ outsidePyPath c ++ "\")\n" else "")
-    ++ "package " ++ escapePath (convertName (outsidePyPath c) safe) ++ "\n"
+  (if outsidePyPath c != convertPath (outsidePyPath c) safe then "@PythonModule(\"" ++ outsidePyPath c ++ "\")\n" else "")
+    ++ "package " ++ escapePath (convertPath (outsidePyPath c) safe) ++ "\n"
 
 /-- a closed form of `createOutsidePackageClass` -/
 theorem createOutsidePackageClass_eq (safe : Bool) (c : String) (created existing : List String) :
@@ -1848,7 +1848,7 @@ theorem packageHeader_inj (env : Env) (p₁ p₂ rest₁ rest₂ : String)
   have h := congrArg String.toList h
   unfold packageHeader at h
   rw [← String.toList_inj]
-  by_cases c1 : p₁ = convertName p₁ env.safe <;> by_cases c2 : p₂ = convertName p₂ env.safe
+  by_cases c1 : p₁ = convertPath p₁ env.safe <;> by_cases c2 : p₂ = convertPath p₂ env.safe
   · simp only [bne_iff_ne, ne_eq, ← c1, ← c2, not_true_eq_false, if_false, String.toList_append] at h
     have e : ("" : String).toList = [] ∧ "package ".toList = ['p','a','c','k','a','g','e',' '] ∧ "\n".toList = ['\n'] := by
       decide
